@@ -1,5 +1,6 @@
 import MdIt.Core
 import MdIt.Verbatim
+import MdIt.Delims
 import MdIt.Generated.Tables
 /-!
 # MdIt.Inline — the inline tokenizer engine (`parser_inline.py`, `rules_inline/state_inline.py`) and the
@@ -23,6 +24,7 @@ structure IState where
   delims : Nat                 -- number of emphasis-like delimiters recorded so far (0 ⇒ ruler2 has nothing to do)
   backticks : List (Nat × Nat) := []     -- `state.backticks`: run length ↦ last position seen (a dict: the first entry for a key counts)
   backticksScanned : Bool := false       -- `state.backticksScanned`
+  delimiters : List Delim := []          -- `state.delimiters` (one list: no rule of the modelled chains opens a nested scope)
 deriving Repr
 
 def IState.init (src : List Char) : IState :=
